@@ -38,12 +38,21 @@ class Shard:
         self.harness_errors = []
         self.skipped_budget = 0
         self.counting = True
+        self.journal = None
 
     def execute(self, desc, origin):
         """Run one descriptor against the real code. Returns the violation signature or None."""
         mod = self.mod
         sig = None
         extra = None
+        if self.journal:
+            # crash journal: if the process dies inside run_case (abort/segfault from memory corruption
+            # in the code under test), the runner reports this descriptor
+            try:
+                with open(self.journal, 'w') as jf:
+                    jf.write(dumps({'origin': origin, 'desc': desc}))
+            except Exception:
+                pass
         try:
             extra = mod.run_case(desc)
         except Reject as r:
@@ -197,9 +206,14 @@ def main(argv=None):
     a = ap.parse_args(argv)
 
     t0 = time.time()
+    try:
+        env.register_asdf()  # do not depend on an installed entry point / egg-info next to the sources
+    except Exception:
+        pass
     mod = importlib.import_module('vt.props.' + a.prop.lower())
     cfg = mod.config(a.tier)
     sh = Shard(mod, a.tier)
+    sh.journal = a.out + '.current'
     out = {'prop': a.prop, 'tier': a.tier, 'seed': a.seed, 'shard': a.shard}
     exhaustive_complete = None
     exhaustive_count = 0
